@@ -21,8 +21,8 @@ from harness import tlc, cli, mibs, par
 T0 = 1000000000
 FORMULAS = ['P_ExitZeroOnlyIfClean', 'P_Usage64', 'P_HelpDoesNothing', 'P_ReportMatchesStatus', 'P_FilesAreReported',
             'P_IndexOnlyWhenAsked']
-NSEA = {'json': 2, 'pysnmp': 4}
-SUFFIX = {'json': '.json', 'pysnmp': '.py'}
+NSEA = {'json': 2, 'pysnmp': 4, 'null': 1}
+SUFFIX = {'json': '.json', 'pysnmp': '.py', 'null': '.null'}
 
 DUMP_CFG = '''CONSTANTS
   NSrc = 2
@@ -50,12 +50,17 @@ DUMP_SLICES = {
               ('graph-json', 'json', 'Dom_graph', 'Keep_graph_q', 900),
               ('report-json', 'json', 'Dom_report', 'KeepAll', 600),
               ('sources-json', 'json', 'Dom_sources', 'KeepAll', 500),
+              ('dest-json', 'json', 'Dom_dest', 'Keep_dest_q', 500),
+              ('null', 'null', 'Dom_null', 'KeepAll', 250),
               ('report-pysnmp', 'pysnmp', 'Dom_report', 'Keep_report_q', 300)],
     'thorough': [('usage-json', 'json', 'Dom_usage', 'KeepAll', None), ('usage-pysnmp', 'pysnmp', 'Dom_usage', 'KeepAll', None),
                  ('status-json', 'json', 'Dom_status', 'KeepAll', None),
                  ('graph-json', 'json', 'Dom_graph', 'KeepAll', None),
                  ('report-json', 'json', 'Dom_report', 'KeepAll', None),
                  ('sources-json', 'json', 'Dom_sources', 'KeepAll', None),
+                 ('dest-json', 'json', 'Dom_dest', 'KeepAll', None),
+                 ('dest-pysnmp', 'pysnmp', 'Dom_dest', 'Keep_dest_q', 3000),
+                 ('null', 'null', 'Dom_null', 'KeepAll', None),
                  ('report-pysnmp', 'pysnmp', 'Dom_report', 'KeepAll', None),
                  ('status-pysnmp', 'pysnmp', 'Dom_status', 'Keep_status_q', 4000)],
 }
@@ -109,21 +114,26 @@ def build_world(w, fmt, root, times=CLI_TIMES):
     elif w['src2A'] == 'broken':
         _put(os.path.join(src2, 'AA-MIB.txt'), module_text('AA-MIB', w).replace('END\n', '::= ::= END\n'), times['src'][1])
     sfx = SUFFIX[fmt]
-    borrowed = {'json': '{"borrowed": "%s"}\n', 'pysnmp': '# borrowed %s\nx = 1\n'}[fmt]
+    borrowed = {'json': '{"borrowed": "%s"}\n', 'pysnmp': '# borrowed %s\nx = 1\n', 'null': 'borrowed %s\n'}[fmt]
     for n, b in (('AA-MIB', w['borA']), ('BB-MIB', w['borB'])):
         if b:
             _put(os.path.join(bor, n + sfx), borrowed % n, times['bor'])
-    old = {'json': '{"old": "%s"}\n', 'pysnmp': '# old %s\nx = 0\n'}[fmt]
+    old = {'json': '{"old": "%s"}\n', 'pysnmp': '# old %s\nx = 0\n', 'null': 'old %s\n'}[fmt]
     for n, st in (('AA-MIB', w['dstA']), ('BB-MIB', w['dstB'])):
         if st != 'absent':
             _put(os.path.join(dst, n + sfx), old % n, times['fresh'] if st == 'fresh' else times['stale'])
+    if w.get('dstKind') == 'file':        # the destination "directory" is a regular file
+        shutil.rmtree(dst)
+        _put(dst, 'not a directory\n', T0)
     return src, src2, bor, dst
 
 
 def materialise(w, fmt, root):
     """-> (argv, dst directory)"""
     src, src2, bor, dst = build_world(w, fmt, root)
-    argv = ['--mib-source=file://' + src, '--mib-source=file://' + src2]
+    path_form = w.get('reqForm') == 'path'
+    # requests given as paths: the script itself puts their directory in front of the sources
+    argv = ([] if path_form else ['--mib-source=file://' + src]) + ['--mib-source=file://' + src2]
     if w['texts'] == 'before':
         argv.append('--generate-mib-texts')
     argv.append('--mib-borrower=file://' + bor)
@@ -142,15 +152,17 @@ def materialise(w, fmt, root):
     elif w['usage'] == 'badLevel':
         argv.append('--python-optimization-level=fast')
     if w['usage'] != 'noMibs':
-        argv += list(w['req'])
+        argv += [os.path.join(src, r + '.txt') for r in w['req']] if path_form else list(w['req'])
     return argv, dst
 
 
-def observe_dump(w, fmt, root, how='inproc'):
+def observe_dump(w, fmt, root, how='inproc', debug=False):
     argv, dst = materialise(w, fmt, root)
-    before = cli.snapshot(dst)
+    if debug and w['usage'] == 'none':
+        argv.insert(0, '--debug=all')          # debugging output must not change what the tool does
+    before = cli.snapshot(dst) if os.path.isdir(dst) else {'<file>': cli.snapshot(os.path.dirname(dst)).get(os.path.basename(dst))}
     r = cli.run_inproc('mibdump', argv, cwd=root) if how == 'inproc' else cli.run_subproc('mibdump', argv, cwd=root)
-    after = cli.snapshot(dst)
+    after = cli.snapshot(dst) if os.path.isdir(dst) else {'<file>': cli.snapshot(os.path.dirname(dst)).get(os.path.basename(dst))}
     created, rewritten, removed = cli.diff_snap(before, after)
     sfx = SUFFIX[fmt]
     touched, idx = [], False
@@ -181,7 +193,7 @@ def _dump_job(job):
     root = os.path.join(base, 'w%d' % i)
     os.makedirs(root)
     try:
-        obs, extra = observe_dump(w, fmt, root)
+        obs, extra = observe_dump(w, fmt, root, debug=(i % 9 == 4))
         sub = None
         if i % 40 == 0:      # the same world through a real subprocess: exit, report, files must agree
             root2 = os.path.join(base, 'w%ds' % i)
@@ -194,9 +206,9 @@ def _dump_job(job):
 
 
 def brief_world(w, fmt):
-    flags = [k for k in ('noDeps', 'rebuild', 'ignoreErrors', 'noWrites', 'dryRun', 'buildIndex', 'quiet', 'alias') if w[k]]
-    return '%s req=%s src=%s+%s/%s imp=%s%s dst=%s/%s bor=%d%d base=%d texts=%s usage=%s %s' % (
-        fmt, ','.join(w['req']), w['srcA'], w['src2A'], w['srcB'], w['imp'], '~' if w.get('spell') == 'variant' else '', w['dstA'], w['dstB'], w['borA'], w['borB'], w['base'],
+    flags = (['dst-is-a-file'] if w.get('dstKind') == 'file' else []) + [k for k in ('noDeps', 'rebuild', 'ignoreErrors', 'noWrites', 'dryRun', 'buildIndex', 'quiet', 'alias') if w[k]]
+    return '%s req=%s%s src=%s+%s/%s imp=%s%s dst=%s/%s bor=%d%d base=%d texts=%s usage=%s %s' % (
+        fmt, ','.join(w['req']), '(paths)' if w.get('reqForm') == 'path' else '', w['srcA'], w['src2A'], w['srcB'], w['imp'], '~' if w.get('spell') == 'variant' else '', w['dstA'], w['dstB'], w['borA'], w['borB'], w['base'],
         w['texts'], w['usage'], '+'.join(flags))
 
 
